@@ -1,5 +1,6 @@
 import WP.Model.Hist
 import WP.Model.Access
+import WP.Model.Position
 /-
   Line-protocol driver: one operation per line on stdin, one canonical result line on stdout.
   `ok <fields…>` | `err <ErrorName>` | `bad-op`.  See DESIGN.md Appendix B.
@@ -53,6 +54,17 @@ def stepPure (toks : List String) : Option String :=
   | ["ldta", o, w, disc, wp, m] => do
       let o ← b01 o; let w ← b01 w; let disc ← disc.toNat?; let wp ← b01 wp; let m ← b01 m
       pure (match loadTickArray o w disc wp m with | none => "ok" | some e => "err " ++ e)
+  | ["reset", ts, liq, oa, ob, r0, r1, r2, olo, ohi, nlo, nhi, keep] => do
+      let ts ← ts.toNat?; let liq ← liq.toNat?; let oa ← oa.toNat?; let ob ← ob.toNat?
+      let r0 ← r0.toNat?; let r1 ← r1.toNat?; let r2 ← r2.toNat?
+      let olo ← olo.toInt?; let ohi ← ohi.toInt?; let nlo ← nlo.toInt?; let nhi ← nhi.toInt?; let keep ← b01 keep
+      let p : PositionD := { lower := olo, upper := ohi, liq := liq, cpA := 111, cpB := 222, owedA := oa, owedB := ob,
+                             rewards := [{ checkpoint := 31, owed := r0 }, { checkpoint := 32, owed := r1 }, { checkpoint := 33, owed := r2 }] }
+      pure (showR ((resetPositionRange ts p nlo nhi keep).map fun q =>
+        s!"{q.lower} {q.upper} {q.cpA} {q.cpB} {(q.rewards.map fun r => s!"{r.checkpoint}:{r.owed}")}"))
+  | ["snap", lo, hi, ts, price] => do
+      let lo ← lo.toInt?; let hi ← hi.toInt?; let ts ← ts.toNat?; let price ← price.toNat?
+      pure (showR ((resolveOneSided lo hi ts price).map fun (a, b) => s!"{a} {b}"))
   | ["mdr", n0, n1, d, up] => do
       let n0 ← n0.toNat?; let n1 ← n1.toNat?; let d ← d.toNat?; let up ← b01 up
       pure (showR ((checkedMulDivRoundUpIf n0 n1 d up).map toString))
@@ -64,20 +76,46 @@ def stepPure (toks : List String) : Option String :=
       pure (showR ((divRoundUpIfU256 n d up).map toString))
   | _ => none
 
-partial def loop (h : IO.FS.Stream) (out : IO.FS.Stream) (hist : Option HistState) : IO Unit := do
+def hexByte (n : Nat) : String :=
+  let d := "0123456789abcdef".toList
+  String.ofList [d.getD (n / 16) '0', d.getD (n % 16) '0']
+
+def bundleLine (bm : List Nat) (toks : List String) : List Nat × String :=
+  let show_ (b : List Nat) := String.join (b.map hexByte) ++ (if bundleDeletable b then " 1" else " 0")
+  match toks with
+  | ["new"] => (List.replicate 32 0, "ok " ++ show_ (List.replicate 32 0))
+  | ["open", i] =>
+    match i.toNat? with
+    | none => (bm, "bad-op")
+    | some i => match bundleUpdate bm i true with
+      | .ok b => (b, "ok " ++ show_ b)
+      | .error e => (bm, "err " ++ e.name ++ " " ++ show_ bm)
+  | ["close", i] =>
+    match i.toNat? with
+    | none => (bm, "bad-op")
+    | some i => match bundleUpdate bm i false with
+      | .ok b => (b, "ok " ++ show_ b)
+      | .error e => (bm, "err " ++ e.name ++ " " ++ show_ bm)
+  | _ => (bm, "bad-op")
+
+partial def loop (h : IO.FS.Stream) (out : IO.FS.Stream) (hist : Option HistState) (bm : List Nat := List.replicate 32 0) : IO Unit := do
   let line ← h.getLine
   if line.isEmpty then return ()
   let toks := (line.trimAscii.toString.splitOn " ").filter (· ≠ "")
   match toks with
+  | "B" :: rest =>
+    let (bm', s) := bundleLine bm rest
+    out.putStrLn s
+    loop h out hist bm'
   | "H" :: rest =>
     let (hist', s) := histLine hist rest
     out.putStrLn s
-    loop h out hist'
+    loop h out hist' bm
   | _ =>
     match stepPure toks with
     | some s => out.putStrLn s
     | none => out.putStrLn "bad-op"
-    loop h out hist
+    loop h out hist bm
 
 def driverMain : IO Unit := do
   let out ← IO.getStdout
